@@ -12,6 +12,7 @@ package main
 
 import (
 	"bufio"
+	"io"
 	"bytes"
 	"context"
 	"encoding/hex"
@@ -22,6 +23,7 @@ import (
 	"reflect"
 	"runtime"
 	"strings"
+	"time"
 
 	"github.com/sqlc-dev/doubleclick/ast"
 	"github.com/sqlc-dev/doubleclick/lexer"
@@ -56,6 +58,12 @@ var pool = strings.Fields(`SELECT FROM WHERE GROUP BY HAVING ORDER LIMIT OFFSET 
  SOURCE LAYOUT LIFETIME RANGE_HASHED FLAT MIN MAX IF TEMPORARY ON CLUSTER POPULATE EMPTY REFRESH EVERY DAY SECOND YEAR TRANSACTION COMMIT ROLLBACK BEGIN
  0b1111111111111111111111111111111111111111111111111111111111111111111111 0o7777777777777777777777777777777 0xFFFFFFFFFFFFFFFFFFFFFFFF -0x10::Int8 18446744073709551616 -9223372036854775809
  340282366920938463463374607431768211456 1e999 nan inf -inf 0x1p-1074 1_000_000 00 007 .5e-3 x'4142' b'0101' 'é' '\\x' [] () [1,'a',NULL] (1,2)::Tuple(UInt8,UInt8) {} a.1 t.* *.*`)
+
+// degenerate spellings: empty quoted identifiers (alone and as a part of a dotted name), empty hex / binary strings, an empty
+// heredoc, radix prefixes and exponents without digits
+var degenerate = []string{`""`, `"".a`, `a.""`, "``", "``.x", "a.``", `x''`, `b''`, `$$$$`, `0x`, `1e`, `..`, `("".a)(1)`, "(``.x, y) -> 1"}
+
+func init() { pool = append(pool, degenerate...) }
 
 var prefixes = []string{"", "SELECT ", "SELECT 1 FROM t ", "SELECT 1 ", "CREATE TABLE t ", "ALTER TABLE t ", "INSERT INTO t ", "WITH ", "SELECT * FROM t GROUP BY ", "CREATE DICTIONARY d (a UInt8) PRIMARY KEY a ", "EXPLAIN ", "SELECT CAST(", "SELECT f(", "SYSTEM ", "SHOW ", "GRANT ", "CREATE ", "SELECT a FROM t ORDER BY a "}
 
@@ -527,6 +535,46 @@ func maxNesting(src []byte) int {
 var measureAlloc bool
 var parseAlloc int64
 
+var caseNo int
+
+type onlyReader struct{ r io.Reader }
+
+func (o onlyReader) Read(p []byte) (int, error) { return o.r.Read(p) }
+
+func readerName(i int) string {
+	return [...]string{"strings.Reader", "bytes.Reader", "bytes.Buffer", "bufio.Reader(16)", "bufio.Reader(4096)", "bufio.Reader(8192)", "bufio.Reader(65536)",
+		"io.MultiReader(halves)", "plain io.Reader", "io.LimitReader", "io.TeeReader", "bufio.Reader(1<<20)"}[i%12]
+}
+
+func publicReader(src []byte, i int) io.Reader {
+	switch i % 12 {
+	case 0:
+		return strings.NewReader(string(src))
+	case 1:
+		return bytes.NewReader(src)
+	case 2:
+		return bytes.NewBuffer(append([]byte(nil), src...))
+	case 3:
+		return bufio.NewReaderSize(bytes.NewReader(src), 16)
+	case 4:
+		return bufio.NewReaderSize(bytes.NewReader(src), 4096)
+	case 5:
+		return bufio.NewReaderSize(bytes.NewReader(src), 8192)
+	case 6:
+		return bufio.NewReaderSize(bytes.NewReader(src), 65536)
+	case 7:
+		h := len(src) / 2
+		return io.MultiReader(bytes.NewReader(src[:h]), bytes.NewReader(src[h:]))
+	case 8:
+		return onlyReader{bytes.NewReader(src)}
+	case 9:
+		return io.LimitReader(bytes.NewReader(src), int64(len(src))+1)
+	case 10:
+		return io.TeeReader(bytes.NewReader(src), io.Discard)
+	}
+	return bufio.NewReaderSize(bytes.NewReader(src), 1<<20)
+}
+
 func runOne(src []byte, E, B int64, wantExplain bool) (status string, tokens, steps int64, detail, explain string) {
 	func() {
 		defer func() {
@@ -534,9 +582,20 @@ func runOne(src []byte, E, B int64, wantExplain bool) (status string, tokens, st
 				status, detail = "PANIC", "Tokenize: "+fmt.Sprint(r)
 			}
 		}()
-		for _, it := range lexer.Tokenize(bytes.NewReader(src)) {
+		// stepped with a cap (C12: at most one token per byte plus EOF): a lexer that stops advancing is an observation, not
+		// a harness that allocates until it is killed
+		l := lexer.New(bytes.NewReader(src))
+		for n := 0; ; n++ {
+			it := l.NextToken()
+			if it.Token == token.EOF {
+				break
+			}
+			if n > len(src)+2 {
+				status, detail = "BUDGET", "the lexer hands out more than len+2 tokens without reaching EOF (Parse cannot terminate)"
+				return
+			}
 			switch it.Token {
-			case token.WHITESPACE, token.LINE_COMMENT, token.EOF:
+			case token.WHITESPACE, token.LINE_COMMENT:
 			default:
 				tokens++
 			}
@@ -584,6 +643,27 @@ func runOne(src []byte, E, B int64, wantExplain bool) (status string, tokens, st
 	steps = p.VerifSteps()
 	if status != "" {
 		return
+	}
+	// the same input through the PUBLIC entry point parser.Parse, handed over as one of the reader types a caller would use
+	// (the budgeted run above goes through parser.New + ParseStatements on a bytes.Reader): it must not panic and must
+	// return as many statements, with an error or without, as the run above
+	caseNo++
+	if len(src) < 4096 || caseNo%4 == 0 {
+		func() {
+			defer func() {
+				if r := recover(); r != nil {
+					status, detail = "PANIC", fmt.Sprintf("parser.Parse(ctx, %s): %v", readerName(caseNo), r)
+				}
+			}()
+			st2, err2 := parser.Parse(context.Background(), publicReader(src, caseNo))
+			if len(st2) != len(stmts) || (err2 == nil) != (err == nil) {
+				status, detail = "PANIC", fmt.Sprintf("parser.Parse(ctx, %s) returns %d statements, err=%v; parser.New(bytes.Reader).ParseStatements returns %d, err=%v",
+					readerName(caseNo), len(st2), err2, len(stmts), err)
+			}
+		}()
+		if status != "" {
+			return
+		}
 	}
 	if err != nil {
 		return "err", tokens, steps, "", ""
@@ -656,11 +736,13 @@ func run(args []string) {
 	K := fs.Int64("K", 64, "empirical bound of the property: steps <= K*(tokens+16), K calibrated on the corpus (max observed 13.5) with a safety factor")
 	ex := fs.Bool("explain", false, "append the hex EXPLAIN text of accepted inputs")
 	memBound := fs.Int64("mem", 0, "if > 0: status MEM when more than this many bytes per token are allocated (inputs of at least 512 tokens)")
+	hang := fs.Duration("hang", 60*time.Second, "wall-clock watchdog per input")
 	fs.Parse(args)
 	in := bufio.NewScanner(os.Stdin)
 	in.Buffer(make([]byte, 1<<22), 1<<26)
 	out := bufio.NewWriter(os.Stdout)
 	defer out.Flush()
+	hung := false
 	for in.Scan() {
 		line := in.Text()
 		var src []byte
@@ -672,7 +754,24 @@ func run(args []string) {
 			}
 		}
 		measureAlloc = *memBound > 0
-		st, tk, steps, detail, expl := runOne(src, *E, *B, *ex)
+		if hung {
+			// a call that never returned is still running in its goroutine: nothing measured after it would be reliable
+			fmt.Fprintf(out, "SKIP\t0\t0\tafter a hang\n")
+			continue
+		}
+		var st, detail, expl string
+		var tk, steps int64
+		done := make(chan struct{})
+		go func() {
+			defer close(done)
+			st, tk, steps, detail, expl = runOne(src, *E, *B, *ex)
+		}()
+		select {
+		case <-done:
+		case <-time.After(*hang):
+			hung = true
+			st, tk, steps, detail, expl = "BUDGET", 0, 0, fmt.Sprintf("HANG: Parse / Explain did not return within %v (no parser step was counted: a loop outside the step-counted parser code)", *hang), ""
+		}
 		if st != "BUDGET" && st != "PANIC" && steps > *K*(tk+16) {
 			st, detail = "SLOW", fmt.Sprintf("steps %d > %d*(tokens+16)", steps, *K)
 		}
